@@ -38,9 +38,10 @@ PLAN = {
         trusted_base=COMMON_TRUST + [NUMPY_TRUST], assumptions=[MATH_ARITH, 'coordinates finite', T1, RTC_NOTE],
         explanation="proved: segment_intersects_point, point_intersects_polygon, _perform_intersects_polygon, "
                     "_perform_intersects_multipoint, most of _perform_intersects_line (four invariants by stand-in); "
-                    "PointArray.intersects for polygon-like and multipoint shapes with its helpers (inds handling, a missing "
-                    "point never intersects); scalar Point forms, line shapes and the end-to-end answer against the exact "
-                    "oracle by the run-time checked contract (bounded)",
+                    "PointArray.intersects for polygon-like, multipoint and point shapes with its helpers "
+                    "(_intersects_polygon / _intersects_multipoint / _intersects_point: inds handling, exact equality of "
+                    "points, a missing point never intersects); scalar Point forms, line shapes and the end-to-end answer "
+                    "against the exact oracle (incl. points an ulp apart) by the run-time checked contract (bounded)",
     ),
     'C03': dict(
         modules=['c03_rtree'], level='other', stages=[RTC],
@@ -108,7 +109,8 @@ PLAN = {
         modules=['glue_dask'], level='other', stages=[RTC],
         trusted_base=COMMON_TRUST, assumptions=[RTC_NOTE, 'local filesystem, synchronous dask scheduler'],
         explanation="parquet metadata glue; decided only by the bounded stand-in: partition_bounds per loaded partition for "
-                    "every geometry column (2, 3, 12 partitions), pruning never loses an intersecting row",
+                    "every geometry column (2, 3, 12 partitions; datasets written by to_parquet and by "
+                    "pack_partitions_to_parquet), pruning never loses an intersecting row",
     ),
     'C13': dict(
         modules=['c13_bounds', 'c14_measures', 'glue_rep', 'glue_dask', 'glue_fixed'], level='other', stages=[RTC],
@@ -126,8 +128,9 @@ PLAN = {
         trusted_base=COMMON_TRUST,
         assumptions=[MATH_ARITH, "sqrt is an uninterpreted function: 'exact' means equal as real expressions; IEEE "
                      "rounding of the sums is not verified", "area contracts are for finite coordinates", RTC_NOTE],
-        explanation="compute_line_length, compute_area and the three prange map kernels (incl. iteration independence) are "
-                    "proved, and the array wrappers LineArray / MultiLineArray / PolygonArray / MultiPolygonArray .length and "
+        explanation="compute_line_length, compute_area (cells of the coordinate buffer count as narrow until widened by "
+                    "np.float64 / float: arithmetic on an unwidened cell is outside the model, i.e. undecided) and the three "
+                    "prange map kernels (incl. iteration independence) are proved, and the array wrappers LineArray / MultiLineArray / PolygonArray / MultiPolygonArray .length and "
                     "PolygonArray / MultiPolygonArray .area (row i = measure of element i, NaN iff missing, any array offset); "
                     "scalar forms, boundary and point / multipoint arrays by the run-time checked contract (bounded)",
     ),
